@@ -94,7 +94,7 @@ class Ctx:
         self.info.append(message)
 
     def include(self, other_run, only_rules: set, as_rule: str, desc: str, floor: int = 1,
-                constructs=None):
+                constructs=None, select=None):
         """Run another property's rule function and adopt the instances/findings of the
         rules in *only_rules* under the rule id *as_rule*.  *constructs*: optional predicate on
         the construct name restricting which findings are adopted."""
@@ -117,7 +117,8 @@ class Ctx:
             self.rules[as_rule]["instances"] += r["instances"]
             self.rules[as_rule]["nontrivial"] |= r["nontrivial"]
         for f in sub.findings:
-            if f.rule in only_rules and (constructs is None or constructs(f.construct)):
+            if f.rule in only_rules and (constructs is None or constructs(f.construct)) \
+                    and (select is None or select(f)):
                 self.fail(f.construct, f.where, f.message, f.steps, f.expected, f.observed, rule=as_rule)
         for e in sub.errors:
             if any(f"rule={rid} " in e for rid in only_rules):
